@@ -503,3 +503,24 @@ Proof.
   - apply andb_true_iff in H. destruct H as [A B]. split; [|exact (IH B)].
     destruct e; try discriminate. eexists _, _. reflexivity.
 Qed.
+
+(* ---------- the codec contract the write-ahead log relies on (Wal/WalProofs.v), for ANY schema ---------- *)
+Definition enc_of (cid_ok : list Z -> bool) (s : schema) (v : value) : list Z :=
+  match encode cid_ok s v with Some b => b | None => [] end.
+Definition dec_of (cid_ok : list Z -> bool) (s : schema) (bs : list Z) : option (value * list Z) := fst (decode cid_ok s bs).
+
+Lemma decode_nil cid_ok s : dec_of cid_ok s [] = None.
+Proof. destruct s; reflexivity. Qed.
+
+Theorem codec_contract cid_ok s : wf_schema s ->
+  (forall v rest, wfv cid_ok s v -> dec_of cid_ok s (enc_of cid_ok s v ++ rest) = Some (v, rest)) /\
+  (forall v, wfv cid_ok s v -> enc_of cid_ok s v <> []) /\
+  (forall v p q, wfv cid_ok s v -> enc_of cid_ok s v = p ++ q -> q <> [] -> dec_of cid_ok s p = None).
+Proof.
+  intros Hw. split; [|split].
+  - intros v rest Hv. destruct (codec_roundtrip cid_ok s v Hw Hv) as [b [Eb R]]. unfold enc_of, dec_of. rewrite Eb. apply R.
+  - intros v Hv Hn. destruct (codec_roundtrip cid_ok s v Hw Hv) as [b [Eb R]]. unfold enc_of in Hn. rewrite Eb in Hn. subst b.
+    pose proof (R []) as R0. cbn [app] in R0. pose proof (decode_nil cid_ok s) as N. unfold dec_of in N. rewrite N in R0. discriminate.
+  - intros v p q Hv Ee Hq. destruct (codec_roundtrip cid_ok s v Hw Hv) as [b [Eb R]]. unfold enc_of in Ee. rewrite Eb in Ee.
+    unfold dec_of. eapply codec_truncated; eassumption.
+Qed.
